@@ -138,7 +138,7 @@ def shards(tier, seed):
             for rc in ([0, 0, 0], [1, 1, 1]):
                 out.append(dict(name=f"ma{ma}-tree2-root{rc[0]}{rc[1]}{rc[2]}", fn="h_history", kwargs=dict(max_anc=ma, n_ops=2, root_cfg=rc), budget=100, per_path=20))
         out.append(dict(name="ma1-chain2-two", fn="h_history",
-                        kwargs=dict(max_anc=1, n_ops=2, two_updates=True, root_cfg=[0, 1, 0], pars=[0, 1]), budget=100, per_path=20))
+                        kwargs=dict(max_anc=1, n_ops=2, two_updates=True, root_cfg=[0, 0, 0], pars=[0, 1]), budget=100, per_path=20))
     else:
         for ma in (1, 2, 20, None):
             for root_cfg in itertools.product((0, 1), repeat=3):
